@@ -189,3 +189,34 @@ class Mkcol_handle:
 
     def inv_1(self, _i, _seq):
         return True
+
+
+@contract("xandikos.webdav.PostMethod.handle",
+          params={"self": "obj:xandikos.webdav.PostMethod", "request": "opaque:Request", "environ": "dict[str,str]",
+                  "app": "obj:xandikos.webdav.WebDAVApp"},
+          returns="obj:xandikos.webdav.Response", may_raise=["ValueError", "KeyError", "AssertionError"])
+class Post_handle:
+    """RFC 5995 add-member.  C01: exactly one create_member on the addressed collection, or
+    nothing.  C16: the Location of the new member is the (percent-quoted) request path of the
+    collection followed by the new member's name, so it dereferences to that member."""
+
+    def requires(self, app):
+        return app.backend.path != ""
+
+    def ensures(self, request, result):
+        r = target(request)
+        body = body_of(request.content)
+        return (implies(r is None, result.status == 404 and effect_names() == [])
+                and implies(r is not None and "{DAV:}collection" not in r.resource_types,
+                            result.status == 405 and effect_names() == [])
+                and implies(r is not None and "{DAV:}collection" in r.resource_types,
+                            effect_names() == ["create_member"] and effect_arg(0, 1) == r and effect_arg(0, 2) is None
+                            and joined(effect_arg(0, 3)) == body))
+
+    def ensures_location(self, request, result):
+        r = target(request)
+        ok = (r is not None and "{DAV:}collection" in r.resource_types
+              and cm_outcome(r, None, effect_arg(0, 3), effect_arg(0, 4)) not in (1, 2, 3))
+        coll = request.path if request.path.endswith("/") else request.path + "/"
+        return implies(ok, result.status == 200 and result.headers[0][0] == "Location"
+                       and result.headers[0][1] == urllib.parse.quote(coll + cm_name(r, None, effect_arg(0, 3), effect_arg(0, 4))))
